@@ -95,12 +95,12 @@ func ubPrimCommit(blind []byte, value uint64, gen []byte) []byte {
 }
 
 type ubSignArgs struct {
-	min            uint64
-	commit         []byte
-	vbf            []byte
-	nonce          []byte
-	exp, mb        int
-	value          uint64
+	min             uint64
+	commit          []byte
+	vbf             []byte
+	nonce           []byte
+	exp, mb         int
+	value           uint64
 	msg, extra, gen []byte
 }
 
@@ -236,15 +236,15 @@ type ubFieldOp struct {
 }
 
 type ublCase struct {
-	value              uint64
-	asset, abf, vbf    []byte
-	script             []byte
-	exp, mb            int
-	R, esk, E          []byte // recipient public key, ephemeral private/public key
-	rsk                []byte // recipient private key (used by S only; the K scenario names its own key)
-	ops                []ubFieldOp
-	mode               string // "k" UnblindOutputWithKey, "n" UnblindOutputWithNonce
-	key                []byte
+	value           uint64
+	asset, abf, vbf []byte
+	script          []byte
+	exp, mb         int
+	R, esk, E       []byte // recipient public key, ephemeral private/public key
+	rsk             []byte // recipient private key (used by S only; the K scenario names its own key)
+	ops             []ubFieldOp
+	mode            string // "k" UnblindOutputWithKey, "n" UnblindOutputWithNonce
+	key             []byte
 }
 
 func (t *Toks) ubHex64() uint64 {
